@@ -177,4 +177,156 @@ Section Sim.
     - unfold bind. rewrite Hpush. reflexivity.
     - unfold bind. rewrite Hpush. reflexivity.
   Qed.
+
+  Ltac sim_prim :=
+    first [ apply sim_ret | apply sim_add_node | apply sim_add_attr | apply sim_add_edge | apply sim_set_locals
+          | apply sim_push_frame | apply sim_pop_frame | apply sim_clear_frame | apply sim_unscoped_get | apply sim_unscoped_add
+          | apply sim_unscoped_set | apply sim_scoped_get_at | apply sim_scoped_add_at | apply sim_scoped_set_at | apply sim_scope_of
+          | apply sim_call | apply sim_panic | apply sim_oof | apply sim_fail; exact I
+          | apply sim_lift; first [apply base_as_bool | apply base_as_str | apply base_as_list | apply base_as_gnode | apply base_from_nodes] ].
+  Ltac sim_step :=
+    first [ sim_prim
+          | apply sim_bind; [|intros ?]
+          | apply sim_mapM; intros ?
+          | apply sim_iterM; intros ?
+          | match goal with |- sim (match ?x with _ => _ end) (match ?x with _ => _ end) => destruct x end
+          | match goal with |- sim (if ?x then _ else _) (if ?x then _ else _) => destruct x end ].
+  Ltac sims := repeat sim_step.
+
+  Notation eval' := (eval t fl glob call).
+  Notation ref_eval' := (ref_eval t fl glob call).
+
+  Lemma sim_eval : forall fuel le e, sim (eval' fuel le e) (ref_eval' fuel (le_match le) (le_caps le) e).
+  Proof.
+    induction fuel as [|fuel IH]; intros le e; [apply sim_oof|].
+    destruct e; cbn [eval ref_eval]; try (sims; apply IH).
+    - (* call *) apply sim_call_args. intros a. apply IH.
+  Qed.
+
+  Lemma sim_var_add fuel le v x m :
+    sim (var_add t fl glob call fuel le v x m) (ref_var_add t fl glob call fuel (le_match le) (le_caps le) v x m).
+  Proof. destruct v; cbn [var_add ref_var_add]; sims; apply sim_eval. Qed.
+  Lemma sim_var_set fuel le v x :
+    sim (var_set t fl glob call fuel le v x) (ref_var_set t fl glob call fuel (le_match le) (le_caps le) v x).
+  Proof. destruct v; cbn [var_set ref_var_set]; sims; apply sim_eval. Qed.
+  Lemma sim_cond fuel le c :
+    sim (test_cond t fl glob call fuel le c) (ref_cond t fl glob call fuel (le_match le) (le_caps le) c).
+  Proof. destruct c; cbn [test_cond ref_cond]; sims; apply sim_eval. Qed.
+
+  Lemma sim_get_state_locals A (f g : sstate -> M sstate A) :
+    (forall s s2, same s s2 -> sim (f s) (g s2)) -> sim (s <- get_state ;; f s) (s <- get_state ;; g s).
+  Proof. intros H s s2 p p2 Hs Hb. unfold bind, get_state. apply (H s s2 Hs s s2 p p2 Hs Hb). Qed.
+
+  Lemma sim_attr : forall fuel le tgt a,
+    sim (exec_attr t fl glob call fuel le tgt a) (ref_attr t fl glob call fuel (le_match le) (le_caps le) tgt a).
+  Proof.
+    induction fuel as [|fuel IH]; intros le tgt a; [apply sim_oof|].
+    destruct a as [name value]. cbn [exec_attr ref_attr]. apply sim_poll_then.
+    apply sim_bind; [apply sim_eval|intros v]. destruct (find_shorthand name (f_shorthands fl)) as [sh|]; [|apply sim_add_attr].
+    apply sim_get_state_locals. intros s s2 Hs. cbv zeta. destruct Hs as (_ & Hl & _). rewrite Hl.
+    sims. apply IH.
+  Qed.
+
+  Notation exec_stmt' := (exec_stmt t fl config0 glob regexes find call).
+  Notation ref_stmt' := (ref_stmt t fl glob regexes find call).
+
+  Lemma sim_scan_loop run_arm rrun arms rs subject :
+    (forall caps body, sim (run_arm caps body) (rrun caps body)) ->
+    forall sfuel i, sim (scan_loop find run_arm arms rs subject sfuel i) (ref_scan_loop find rrun arms rs subject sfuel i).
+  Proof.
+    intros Hrun. induction sfuel as [|sfuel IHs]; intros i; cbn [scan_loop ref_scan_loop]; [apply sim_oof|].
+    destruct (N.ltb i (N.of_nat (length subject))); [|apply sim_ret]. apply sim_poll_then. cbv zeta.
+    destruct (arm_select find rs (skipn (N.to_nat i) subject)) as [|k|k caps]; [apply sim_ret|apply sim_fail; exact I|].
+    destruct (nth_error arms (N.to_nat k)) as [[[r body] l']|]; [|apply sim_panic].
+    apply sim_bind; [apply sim_push_frame|intros _]. apply sim_bind; [apply Hrun|intros _].
+    apply sim_bind; [apply sim_pop_frame|intros _]. apply IHs.
+  Qed.
+  Lemma sim_if_loop test rtest run rrun :
+    (forall c, sim (test c) (rtest c)) -> (forall body, sim (run body) (rrun body)) ->
+    forall arms, sim (if_loop test run arms) (if_loop rtest rrun arms).
+  Proof.
+    intros Ht Hr. induction arms as [|[[conds body] l'] arms IHa]; cbn [if_loop]; [apply sim_ret|].
+    apply sim_bind; [apply sim_mapM; intros c; apply Ht|intros bs]. destruct (forallb (fun b => b) bs); [|exact IHa].
+    apply sim_bind; [apply sim_push_frame|intros _]. apply sim_bind; [apply Hr|intros _]. apply sim_pop_frame.
+  Qed.
+
+  Lemma sim_stmt : forall fuel le s, sim (exec_stmt' fuel le s) (ref_stmt' fuel (le_match le) (le_caps le) s).
+  Proof.
+    induction fuel as [|fuel IH]; intros le s; [apply sim_oof|].
+    assert (Hblock : forall le' (wrap : M sstate unit -> M sstate unit) body,
+               (forall m r, sim m r -> sim (wrap m) r) ->
+               sim (iterM (fun st => let c := ctx_update (le_ctx le') st in
+                                     ctx_wrap (CtxStmts [c]) (wrap (exec_stmt' fuel (le_with_ctx le' c) st))) body)
+                   (iterM (ref_stmt' fuel (le_match le') (le_caps le')) body)).
+    { intros le' wrap body Hw. apply sim_iterM. intros st. cbv zeta. apply sim_ctx, Hw. apply (IH (le_with_ctx le' (ctx_update (le_ctx le') st)) st). }
+    destruct s; cbn [exec_stmt ref_stmt]; apply sim_poll_then.
+    - apply sim_bind; [apply sim_eval|intros x; apply sim_var_add].
+    - apply sim_bind; [apply sim_eval|intros x; apply sim_var_add].
+    - apply sim_bind; [apply sim_eval|intros x; apply sim_var_set].
+    - (* node: no debug attributes in the reference configuration *)
+      apply sim_bind; [apply sim_add_node|intros n]. cbn [config0 c_var_attr c_loc_attr c_match_attr opt_attr].
+      change (sim (var_add t fl glob call fuel le v (VGraph n) false) (ref_var_add t fl glob call fuel (le_match le) (le_caps le) v (VGraph n) false)).
+      apply sim_var_add.
+    - apply sim_bind; [apply sim_eval|intros nv]. apply sim_bind; [apply sim_lift, base_as_gnode|intros n].
+      apply sim_iterM. intros a. apply sim_attr.
+    - apply sim_bind; [apply sim_bind; [apply sim_eval|intros x; apply sim_lift, base_as_gnode]|intros a].
+      apply sim_bind; [apply sim_bind; [apply sim_eval|intros x; apply sim_lift, base_as_gnode]|intros b].
+      apply sim_bind; [apply sim_add_edge|intros isnew]. cbn [config0 c_loc_attr opt_attr]. destruct isnew; apply sim_ret.
+    - apply sim_bind; [apply sim_bind; [apply sim_eval|intros x; apply sim_lift, base_as_gnode]|intros a].
+      apply sim_bind; [apply sim_bind; [apply sim_eval|intros x; apply sim_lift, base_as_gnode]|intros b].
+      apply sim_iterM. intros at'. apply sim_attr.
+    - apply sim_bind; [apply sim_eval|intros sv]. apply sim_bind; [apply sim_lift, base_as_str|intros subject].
+      destruct (arm_table regexes arms) as [rs|]; [|apply sim_panic].
+      apply sim_scan_loop. intros caps body. apply (Hblock (le_with_caps le caps) (ctx_wrap CtxOther) body).
+      intros m r Hm. apply sim_ctx, Hm.
+    - apply sim_iterM. intros e. destruct e; try apply sim_ret. all: apply sim_bind; [apply sim_eval|intros _; apply sim_ret].
+    - apply sim_if_loop; [intros c; apply sim_cond|]. intros body. apply (Hblock le (fun m => m) body). auto.
+    - apply sim_bind; [apply sim_eval|intros lv]. apply sim_bind; [apply sim_lift, base_as_list|intros vals].
+      apply sim_bind; [apply sim_push_frame|intros _]. apply sim_bind; [|intros _; apply sim_pop_frame].
+      apply sim_iterM. intros v. apply sim_bind; [apply sim_clear_frame|intros _].
+      apply sim_bind; [apply sim_unscoped_add|intros _]. apply (Hblock le (fun m => m) body). auto.
+  Qed.
+
+  Lemma sim_stanza fuel st m :
+    sim (exec_stanza t fl config0 glob regexes find call fuel st m) (ref_stanza t fl glob regexes find call fuel st m).
+  Proof.
+    unfold exec_stanza, ref_stanza. apply sim_bind; [apply sim_clear_frame|intros _]. apply sim_iterM. intros s. cbv zeta.
+    destruct (nodes_for_capture m (st_full_stanza_idx st)); [apply sim_panic|]. apply sim_ctx.
+    apply (sim_stmt fuel (le_with_ctx {| le_match := m; le_full := st_full_stanza_idx st; le_caps := []; le_ctx := {| sc_stmt := (0, 0); sc_stanza := st_start st; sc_node := 0 |} |}
+                                      {| sc_stmt := stmt_loc s; sc_stanza := st_start st; sc_node := n |}) s).
+  Qed.
+
+  Lemma sim_file fuel : forall sts ms,
+    sim (exec_file t fl config0 glob regexes find call fuel sts ms) (ref_file t fl glob regexes find call fuel sts ms).
+  Proof.
+    induction sts as [|st sts IH]; intros [|m ms]; cbn [exec_file ref_file]; try apply sim_ret.
+    apply sim_bind; [apply sim_iterM; intros x; apply sim_stanza|intros _]. apply IH.
+  Qed.
 End Sim.
+
+(* File::execute (strict mode, no debug attributes, a flag that never signals) returns exactly what the
+   reference prescribes: the same graph, or an error with the same root cause — and panics / divergence of
+   the model coincide too *)
+Theorem strict_refines_reference_lemma {rx : Type} t fl supplied (regexes : list rx) find call fuel matches g0 :
+  call_errors_base call ->
+  match run_strict t fl config0 supplied None regexes find call fuel matches g0 with
+  | Ok (s, _) => ref_run t fl supplied regexes find call fuel matches g0 = Ok (s_graph s)
+  | Err e => ref_run t fl supplied regexes find call fuel matches g0 = Err (root_cause e)
+  | Panic x => ref_run t fl supplied regexes find call fuel matches g0 = Panic x
+  | OutOfFuel => ref_run t fl supplied regexes find call fuel matches g0 = OutOfFuel
+  end.
+Proof.
+  intros Hcall. unfold run_strict, ref_run.
+  destruct (check_globals (f_globals fl) (globals_nested supplied)) as [glob|e|x|] eqn:Eg; try reflexivity.
+  - pose proof (sim_file t fl glob regexes find call Hcall fuel (f_stanzas fl) matches (sinit g0) (sinit g0) (polls0 None) (polls0 None) (same_refl _) eq_refl) as H.
+    destruct (exec_file t fl config0 glob regexes find call fuel (f_stanzas fl) matches (sinit g0) (polls0 None)) as [[[u s] p]|e|x|].
+    + destruct H as (_ & _ & s2 & Hr & (Hg & _)). rewrite Hr. rewrite Hg. reflexivity.
+    + destruct H as [Hr _]. rewrite Hr. reflexivity.
+    + rewrite H. reflexivity.
+    + rewrite H. reflexivity.
+  - (* check_globals errors are base errors *)
+    f_equal. symmetry. apply base_root.
+    revert Eg. generalize (globals_nested supplied). induction (f_globals fl) as [|d ds IH]; intros g; cbn [check_globals obind]; [discriminate|].
+    unfold check_global. repeat match goal with |- context [match ?x with _ => _ end] => destruct x eqn:? end; cbn [obind]; try discriminate;
+      try (intros H; inversion H; subst; exact I); try apply IH.
+Qed.
